@@ -105,6 +105,10 @@ func (r *runner) spawn(tag string, shard, nshards, only, from, caseTimeout int, 
 	cmd.Stderr = errf
 	cmd.Env = append(os.Environ(), r.plan.Env...)
 	cmd.Env = append(cmd.Env, "VERIF_WORKDIR="+r.dir, "VERIF_TAG="+tag)
+	if r.label == "race" || strings.HasSuffix(r.bin, ".race") {
+		// never halt on the first report: later reports and the result oracle still count
+		cmd.Env = append(cmd.Env, "GORACE=halt_on_error=0 log_path="+filepath.Join(r.dir, tag+".race"))
+	}
 	if err := cmd.Start(); err != nil {
 		fmt.Fprintln(errf, "spawn:", err)
 		return 127, false
